@@ -28,3 +28,19 @@ def classify(prop: str, case: Optional[Dict[str, Any]], violations: List[str],
             except Exception:
                 pass
     return None
+
+
+DEVICE_CATS = {"kernel", "gpu_memcpy", "gpu_memset", "cuda_sync"}
+
+
+@predicate("host-tid-1-or-2")
+def host_tid_1_or_2(case: Dict[str, Any], violations: List[str]) -> bool:
+    """The trace has a host thread whose thread id is 1 or 2: the call-graph's per-thread root index -abs(tid)
+    then coincides with its sentinels NULL_NODE_INDEX (-1) / NON_EXISTENT_NODE_INDEX (-2)."""
+    for key in ("ranks", "test_ranks"):
+        for ev in (case.get(key) or {}).values():
+            for e in ev:
+                if e.get("ph") == "X" and "dur" in e and e.get("cat") not in DEVICE_CATS and "stream" not in (e.get("args") or {}) \
+                        and e.get("tid") in (1, 2):
+                    return True
+    return False
